@@ -367,6 +367,19 @@ func c13Sequential(c *mon.Ctx, A, B *world.Log, p, a, b, h int, long bool, warm 
 		}
 		c13Lookup(c, caseID, w, cc, A.Mods[id].Path, A.Mods[id].Vers, "phase1-A", info)
 	}
+	// phase 1c (restarting clients only): the configuration directory is lost or rolled back to the common
+	// prefix while the cache survives; the next process is served a record from that cache, whose signed
+	// head is then as much "accepted" as one from the server
+	if !long && a > 0 && r.IntN(3) == 0 {
+		var keep []byte
+		if p > 0 && r.IntN(2) == 0 {
+			keep = A.Head(p)
+		}
+		w.LoseLatest(keep)
+		mk()
+		c13Lookup(c, caseID, w, cc, A.Mods[a-1].Path, A.Mods[a-1].Vers, "phase1c-A-from-cache-after-config-loss", info)
+		c.Class(fmt.Sprintf("scenario:config-lost-cache-kept:rolled-back-to-prefix=%t", keep != nil))
+	}
 	// phase 2: the server now presents branch B at size b
 	cur, size = B, b
 	mixing = mixTiles != ""
